@@ -4,6 +4,7 @@ package main
 
 import (
 	"fmt"
+	"strconv"
 	"strings"
 	"unicode"
 )
@@ -599,7 +600,13 @@ func (ss *SpecSet) ParseSpecText(file string, lines []string, lineNos []int) err
 			if len(parts) != 2 {
 				return fail(fmt.Errorf("ghost needs 'name: sort'"))
 			}
-			ss.Ghosts[strings.TrimSpace(parts[0])] = &GhostVar{Name: strings.TrimSpace(parts[0]), Sort: strings.TrimSpace(parts[1])}
+			gv := &GhostVar{Name: strings.TrimSpace(parts[0]), Sort: strings.TrimSpace(parts[1])}
+			// "ghost x: Sort owned": only contracts that list x under modifies change it; calls
+			// without a contract are assumed not to reach the objects it describes
+			if f := strings.Fields(gv.Sort); len(f) == 2 && f[1] == "owned" {
+				gv.Sort, gv.Init = f[0], "owned"
+			}
+			ss.Ghosts[gv.Name] = gv
 			cur, curDef = nil, nil
 		default:
 			if cur == nil && curDef == nil {
@@ -739,7 +746,15 @@ func parseClause(word, rest string) (*Clause, error) {
 			return nil, fmt.Errorf("at clause needs '<callee>: assert <expr>'")
 		}
 		cl.Kind = "at"
-		cl.Names = []string{strings.TrimSpace(rest[:idx])}
+		callee := strings.TrimSpace(rest[:idx])
+		// optional site ordinal: "callee@2" = the second call of callee in execution order
+		if k := strings.LastIndex(callee, "@"); k > 0 {
+			if n, err := strconv.Atoi(callee[k+1:]); err == nil {
+				cl.Loop = n
+				callee = callee[:k]
+			}
+		}
+		cl.Names = []string{callee}
 		rest = strings.TrimSpace(rest[idx+len(": assert"):])
 		cl.Src = rest
 		label()
